@@ -757,7 +757,10 @@ func main() {
 	for i, c := range corpus {
 		runCase(r, uint64(i), c)
 	}
-	n := 5000 * r.Scale
+	n := 5000
+	if r.Scale > 1 {
+		n = 3000 * r.Scale // thorough: 60 000 histories (the answer streams are ~70 bytes per line, 80 lines per case)
+	}
 	for i := 0; i < n && deadlocks < 5; i++ {
 		rng, sub := r.Rng.Fork()
 		runCase(r, sub, genCase(rng, 40, i%7 == 6))
